@@ -312,6 +312,23 @@ def run(chk: Check) -> None:
             chk.sample({"call": c.label(), "frame": str(cmd), "decoded": str(payload)[:200]})
         # model comparison for the modelled builders
         _model_compare(D, c, cmd) if MODEL_ON else None
+    # OpenTherm parity arithmetic against the model: `parity` on random and structured values, `decode_frame`'s head
+    # checks on well-formed requests with either parity bit and with spare bits set
+    from ramses_tx import opentherm as OT
+
+    for x in [0, 1, 2, 3, 0x7FFFFFFF, 0x80000000, 0xFFFFFFFF] + [rnd.getrandbits(rnd.choice((8, 16, 31, 32))) for _ in range(300)]:
+        D.add("ot.parity", [str(x)], f"ok\t{OT.parity(x)}")
+    for _ in range(400):
+        b0 = rnd.choice((0x00, 0x80, 0x10, 0x90, 0x40, 0xC0, 0x70, 0xF0, 0x01, 0x8F))
+        fr = f"{b0:02X}{rnd.randrange(256):02X}{rnd.choice((0, 0, rnd.getrandbits(16))):04X}"
+        try:
+            OT.decode_frame(fr)
+            got = "ok\tok"
+        except ValueError as e:
+            got = "err\tValueError" if ("parity" in str(e) or "spare" in str(e)) else "ok\tok"
+        except Exception:  # noqa: BLE001  (unknown data-id etc.: after the head checks)
+            got = "ok\tok"
+        D.add("ot.check", [fr], got)
     missing = set(keys) - covered
     if missing:
         chk.notes.append(f"constructors without generated cases: {sorted(missing)}")
@@ -339,6 +356,7 @@ MODELLED = {
     "get_dhw_mode": "1F41", "get_mix_valve_params": "1030", "get_tpi_params": "1100", "set_system_mode": "2E04",
     "set_system_time": "313F", "set_dhw_mode": "1F41", "set_zone_mode": "2349", "set_mix_valve_params": "1030",
     "set_tpi_params": "1100", "set_zone_name": "0004",
+    "get_opentherm_data": "3220", "get_system_log_entry": "0418", "get_schedule_fragment": "0404", "set_schedule_fragment": "0404",
 }
 
 
@@ -423,6 +441,19 @@ def _model_compare(D: Diff, c: Case, cmd, out=None) -> None:
         if kw or not all(isinstance(v, int) and not isinstance(v, bool) for v in vals) or not (pbw is None or (isinstance(pbw, (int, float)) and not isinstance(pbw, bool))):
             return
         args = [c.name, esc(c.args[0]), "None" if c.args[1] is None else ix(c.args[1])] + [str(v) for v in vals] + [f(pbw)]
+    elif c.name in ("get_opentherm_data", "get_system_log_entry"):
+        i = c.args[1]
+        if c.kwargs or isinstance(i, bool) or not isinstance(i, (int, str)) or (isinstance(i, int) and i < 0 and c.name == "get_opentherm_data"):
+            return
+        args = [c.name, esc(c.args[0]), ix(i)]
+    elif c.name == "get_schedule_fragment":
+        if c.kwargs or len(c.args) != 4 or not isinstance(c.args[2], int) or not (c.args[3] is None or isinstance(c.args[3], int)):
+            return
+        args = [c.name, esc(c.args[0]), ix(c.args[1]), str(c.args[2]), str(c.args[3])]
+    elif c.name == "set_schedule_fragment":
+        if c.kwargs or len(c.args) != 5 or not all(isinstance(x, int) for x in c.args[2:4]) or not isinstance(c.args[4], str):
+            return
+        args = [c.name, esc(c.args[0]), ix(c.args[1]), str(c.args[2]), str(c.args[3]), esc(c.args[4])]
     elif c.name == "set_zone_name":
         if c.kwargs or not isinstance(c.args[2], str) or "\t" in c.args[2] or "\n" in c.args[2]:
             return
